@@ -432,7 +432,7 @@ def gen_many(rng, n):
 
 
 def many_monitor(cmd, blk):
-    specs = cmd.split()[2:]
+    specs = cmd.split()[4:] if cmd.startswith("chld") else cmd.split()[2:]
     if "end" not in blk: return "spawn-crash", f"harness died: {blk[-3:]}"
     if any(l.startswith("spawn-error") for l in blk): return "spawn-failed", str(blk[:3])
     seen = {}
@@ -483,7 +483,7 @@ def run_spawn(ctx, exe, cmds):
                              {"mode": "spawn", "cmds": [c]}):
                 return False
             continue
-        sig, what = {"layout": layout_monitor, "many": many_monitor, "kill": kill_monitor,
+        sig, what = {"layout": layout_monitor, "many": many_monitor, "chld": many_monitor, "kill": kill_monitor,
                      "echo": lambda c, b: (None, None) if b == ["cb 0 7 0 wp=ECHILD active=0", "echo ok", "zombie ECHILD", "end"]
                      else ("spawn-pipe-direction", f"echo through stdin/stdout pipes: {b}")}[w](c, blk)
         if sig == "generator":
@@ -498,7 +498,7 @@ def run_spawn(ctx, exe, cmds):
                 srcs = [int(x[1:]) for x in sl if x[0] == "f"]
                 if any(0 <= s2 < i for i, s2 in ((i, int(x[1:])) for i, x in enumerate(sl) if x[0] == "f")) and any(s2 < len(sl) for s2 in srcs):
                     ctx.nontrivial("L" + hashlib.sha1(c.encode()).hexdigest()[:12])
-            elif w == "many" and len(c.split()) > 4:
+            elif w in ("many", "chld") and len(c.split()) > 4:
                 ctx.nontrivial("M" + hashlib.sha1(c.encode()).hexdigest()[:12])
     return True
 
@@ -552,6 +552,15 @@ def spawn_cases(ctx, rng):
             cmds.append(f"kill {how} {sg}")
     for n in [1, 2, 12] + [rng.range(2, 16) for _ in range(ctx.scale(4, 60))]:
         cmds.append(gen_many(rng, n))
+    # the application's own SIGCHLD watchers (one-shot / normal; started before the first spawn, stopped or started
+    # from inside the first exit_cb) share the signum with libuv's child watcher: later exits must still be noticed
+    pres, mids = ["-", "o", "n", "on", "no", "oO", "nN"], ["-", "O", "N", "o", "n", "ON"]
+    combos = [(a, b) for a in pres for b in mids]
+    pick = combos if not ctx.quick else [(a, "-") for a in pres] + [rng.choice(combos) for _ in range(8)]
+    for a, b in pick:
+        specs = [f"e{rng.range(1, 200)}:20", f"s{rng.choice(SIGS)}:{rng.choice([110, 140])}", f"e{rng.range(1, 200)}:{rng.choice([230, 260])}"]
+        if rng.chance(1, 3): specs.append(f"e{rng.below(256)}:20")      # two exits in the first round
+        cmds.append(f"chld {a} {b} 0 " + " ".join(specs))
     cmds.append("many 300 " + " ".join(f"e{i}" for i in range(12)))          # 12 exits before the loop runs once
     cmds.append("many 0 " + " ".join(f"s{SIGS[i % len(SIGS)]}:100" for i in range(12)))   # 12 simultaneous signals
     return cmds
@@ -622,6 +631,7 @@ def run(ctx):
                 cm += [f"fill {srng.choice([0, 0x5A, 0xFF, 1])}", layout_cmd(sl), layout_cmd(sl, fail=True)]
                 if srng.chance(1, 4): cm += [layout_cmd(sl, forkfail=True), "many 0 e3 e4"]
             cm += [gen_many(srng, srng.range(2, 20)) for _ in range(ctx.scale(20, 200))]
+            cm += [f"chld {a} {b} 0 e1:20 s15:120 e9:240" for a in ["-", "o", "n", "on", "no", "oO", "nN"] for b in ["-", "O", "N", "o", "n", "ON"]]
             n += len(cm)
             run_spawn(ctx, sexe, cm)
         ctx.notes["search"] = f"{n} extra cases run against the monitors after an obligation broke"
